@@ -33,6 +33,8 @@ PseudoOK(e) ==
    /\ (e.corpus => e.found)
    \* the prism family: the corpus claim is justified here (curvature 0 in 2-D, covering of the prism symbol)
    /\ ("prism_of" \in DOMAIN e => Euclidean2D(e.prism_of) /\ Connected(S) /\ IsCoverOf(S, Prism(e.prism_of)) /\ e.found)
+   \* prisms over 2-D symbols of any geometry: the input really is the prism of the specification (nothing else is claimed)
+   /\ ("prism_over" \in DOMAIN e => CompleteSym(e.prism_over) /\ e.prism_over.dim = 2 /\ S = Prism(e.prism_over))
    /\ \A k \in 1..Len(e.variants) : LET w == e.variants[k] IN
          /\ "panic" \notin DOMAIN w
          /\ (w.how = "dual" => w.sym = Dual(S))                           \* the relative really is the dual (derived::dual)
